@@ -133,6 +133,18 @@ def make_task(spec):
             setattr(m, spec['g'], spec['text'])
             return [m.to_er7(), [c.name for c in getattr(m, spec['g'])[0].children]]
         return f
+    if k == 'zfields':
+        def f():
+            # fields of locally defined / open-ended segments, written by name at scattered positions
+            out = []
+            for name, idxs in spec['segs']:
+                seg = core.Segment(name, version=spec['v'], validation_level=2)
+                for i in idxs:
+                    setattr(seg, '%s_%d' % (name.lower(), i), 'v%d' % i)
+                seg.add_field('%s_%d' % (name, max(idxs) + 2)).value = 'last'
+                out.append(seg.to_er7())
+            return out
+        return f
     if k == 'load':
         return lambda: sorted(hl7apy.load_library(spec['v']).BASE_DATATYPES)
     raise ValueError(k)
@@ -144,7 +156,10 @@ def corpus(seed, n=40):
     for i in range(n):
         v = rnd.choice(T.VERSIONS)
         level = rnd.choice([1, 2, 2])
-        k = rnd.choice(['parse', 'parse', 'segment', 'build', 'standalone', 'encode', 'factory', 'factory', 'factory', 'load', 'grouptext'])
+        k = rnd.choice(['parse', 'parse', 'segment', 'build', 'standalone', 'encode', 'factory', 'factory', 'factory', 'load', 'grouptext', 'zfields'])
+        if k == 'zfields':
+            out.append({'t': 'zfields', 'v': v, 'segs': [[rnd.choice(['ZXX', 'ZPD', 'ZA1']), sorted(rnd.sample(range(1, 9), 3))] for _ in range(3)]})
+            continue
         if k == 'grouptext':
             cand = []
             for m in ('ADT_A01', 'ORU_R01', 'OML_O33', 'ADT_A08'):
@@ -360,13 +375,21 @@ def run_shard(shard, acc):
             a0 = rnd.choice(own)
             plan_.append(('heavy', a0))
             forced[id(a0)] = rnd.choice(dflt)
+        # ... and one pair of tasks that both work on open-ended segments (whatever the library shares between such segments)
+        zs = [t for t in tasks if t['t'] == 'zfields']
+        if len(zs) >= 1:
+            a1 = rnd.choice(zs)
+            others_z = [t for t in tasks if t is not a1 and t['t'] in ('zfields', 'parse')]
+            if others_z:
+                plan_.append(('heavy', a1))
+                forced[id(a1)] = rnd.choice(others_z)
         for weight, a in plan_:
             # B: another version family (the base datatype sets differ between <2.5, 2.5-2.6 and >=2.7), and one time in
             # three a task that builds many structures
             others = [t for t in tasks if t is not a and family(t.get('v')) != family(a.get('v'))] or tasks
             heavy = [t for t in others if t['t'] in ('standalone', 'parse')]
             b = rnd.choice(heavy) if (heavy and rnd.random() < 0.4) else rnd.choice(others)
-            if id(a) in forced and a is plan_[-1][1]:
+            if id(a) in forced:
                 b = forced[id(a)]
             sched.outcome(make_task(a))        # warm up: imports and first-use code are not part of the schedule space
             pts, _ = sched.trace_points(make_task(a), select_all)
